@@ -76,16 +76,43 @@ pub struct LReg {
 fn ext_type(name: &str) -> Option<&'static str> {
     Some(match name {
         "Hasher" => "Rs.Crc32Hasher",
+        "Hmac" => "Rs.Hmac",
+        // `Box<dyn AesCipher>`
+        "AesCipher" => "Rs.AesDyn.Cipher",
         _ => return None,
     })
 }
 
-/// vocabulary: (Lean receiver type, method) → (Lean function, mutates the receiver, result type)
-fn ext_method(ty: &str, m: &str) -> Option<(&'static str, bool, LTy)> {
+/// how a vocabulary method treats its receiver
+#[derive(Clone, Copy, PartialEq)]
+pub enum ExtKind {
+    /// `f recv args : ret`
+    Pure,
+    /// `&mut self`, no result: `f recv args : Self`
+    Mut,
+    /// `&mut self` with a result: `f recv args : ret × Self`
+    MutRet,
+    /// `&mut self` and one `&mut [u8]` argument, may panic: `f recv buf : Option (Bytes × Self)`
+    MutBuf,
+}
+
+/// vocabulary: (Lean receiver type, method) → (Lean function, kind, result type)
+fn ext_method(ty: &str, m: &str) -> Option<(&'static str, ExtKind, LTy)> {
     Some(match (ty, m) {
-        ("Rs.Crc32Hasher", "update") => ("Rs.Crc32Hasher.update", true, LTy::Unit),
-        ("Rs.Crc32Hasher", "finalize") => ("Rs.Crc32Hasher.finalize", false, LTy::Int("UInt32".into())),
-        ("Rs.Crc32Hasher", "clone") => ("Rs.Crc32Hasher.clone", false, LTy::Ext("Rs.Crc32Hasher".into())),
+        ("Rs.Crc32Hasher", "update") => ("Rs.Crc32Hasher.update", ExtKind::Mut, LTy::Unit),
+        ("Rs.Crc32Hasher", "finalize") => ("Rs.Crc32Hasher.finalize", ExtKind::Pure, LTy::Int("UInt32".into())),
+        ("Rs.Crc32Hasher", "clone") => ("Rs.Crc32Hasher.clone", ExtKind::Pure, LTy::Ext("Rs.Crc32Hasher".into())),
+        ("Rs.Hmac", "update") => ("Rs.Hmac.update", ExtKind::Mut, LTy::Unit),
+        ("Rs.Hmac", "finalize_reset") => ("Rs.Hmac.finalize_reset", ExtKind::MutRet, LTy::Bytes),
+        ("Rs.AesDyn.Cipher", "crypt_in_place") => ("Rs.AesDyn.crypt_in_place", ExtKind::MutBuf, LTy::Unit),
+        _ => return None,
+    })
+}
+
+/// vocabulary: free functions
+fn ext_free(f: &str) -> Option<(&'static str, LTy)> {
+    Some(match f {
+        "constant_time_eq" => ("Rs.L.bytesEq", LTy::Bool),
         _ => return None,
     })
 }
@@ -134,6 +161,18 @@ pub fn lty(t: &Type, tparams: &[String], self_ty: Option<&LTy>, reg: &Registry, 
                 }
             }
             match n.as_str() {
+                "Box" if args.len() == 1 => {
+                    if let Type::TraitObject(to) = args[0] {
+                        for b in &to.bounds {
+                            if let TypeParamBound::Trait(tb) = b {
+                                if let Some(e) = ext_type(&path_last(&tb.path)) {
+                                    return LTy::Ext(e.into());
+                                }
+                            }
+                        }
+                    }
+                    LTy::Unknown
+                }
                 "Vec" if args.len() == 1 => match lty(args[0], tparams, self_ty, reg, lreg) {
                     LTy::Int(i) if i == "UInt8" => LTy::Bytes,
                     _ => LTy::Unknown,
@@ -390,6 +429,7 @@ pub fn emit(kind: &str, name: &str, all: &[&Item], reg: &Registry, lreg: &LReg, 
             }
             Err("not found".into())
         }
+        "lvar" => Ok((format!("variable [{name}]\n"), String::from("-"), 0, 0)),
         "lenum" => {
             for it in all {
                 if let Item::Enum(e) = it {
